@@ -64,7 +64,7 @@ pub fn rt() -> &'static mut Rt {
                 ctrlc: false,
                 progress: 0,
                 log,
-                cap_override: 0,
+                cap_override: std::env::var("ZX_CAP").ok().and_then(|v| v.parse().ok()).unwrap_or(0),
                 fail_spawn: Vec::new(),
                 spawn_attempts: Vec::new(),
                 short_read: 0,
